@@ -392,7 +392,11 @@ class ColumnBackend(PolarsSchemaBackend):
         if isinstance(schema.default, pl.Expr):
             default_value = schema.default
         else:
-            default_value = pl.lit(schema.default, dtype=schema.dtype.type)
+            default_value = pl.lit(
+                schema.default,
+                # a column may be declared without a dtype
+                dtype=None if schema.dtype is None else schema.dtype.type,
+            )
         expr = pl.col(schema.selector)
         if is_float_dtype(check_obj, schema.selector):
             # both NaN and null count as missing values in float columns
